@@ -54,6 +54,31 @@ pub fn offer(w: &mut World, text: &TextRef, faults_: &[TokFault], reader: Bk, ar
         TextRef::Lit { .. } => false,
         _ => true,
     };
+    // acceptance is decided by the parser alone: a key that parses but cannot be displayed
+    // (panic) was still accepted
+    if expect == Some(false) && r.is_panic() {
+        let kind = match artifact {
+            Artifact::KeyLocal => Some(crate::backend::Kind::Local),
+            Artifact::KeyPublic => Some(crate::backend::Kind::Public),
+            Artifact::KeySecret => Some(crate::backend::Kind::Secret),
+            Artifact::KeyPkePublic => Some(crate::backend::Kind::PkePublic),
+            Artifact::KeyPkeSecret => Some(crate::backend::Kind::PkeSecret),
+            _ => None,
+        };
+        if let Some(k) = kind {
+            if be.key_parse(k, &d.text).is_ok() {
+                let mut it = why.splitn(3, ':');
+                let prop: &'static str = match it.next() {
+                    Some("C08") => "C08",
+                    Some("C13") => "C13",
+                    _ => "C10",
+                };
+                let class = it.next().unwrap_or("must-reject-accepted").to_string();
+                let desc = it.next().unwrap_or("").to_string();
+                w.violate(prop, &class, reader, &op, &desc, format!("{} parser accepted {:?} ({desc}); the accepted key then panics when displayed", artifact.name(), truncate(&d.text, 100)));
+            }
+        }
+    }
     match r {
         Out::Panic(p) => w.violate("C04", "panic", reader, &op, &fclass, format!("parser panicked on {:?}: {p}", truncate(&d.text, 80))),
         Out::Ok(redisplay) => {
